@@ -935,78 +935,84 @@ class Abstractor:
 
 def reach_components(fp):
     """cname -> set of component names whose tags can be evaluated while cname's instance renders a fill or its
-    own templates (transitively)"""
+    own templates (transitively).  A block tag stands for every definition of that name in its family (the content
+    that ends up there is decided by the inheritance chain), an include for the included family."""
     lib = {c: fam for c, fam, _ in fp["lib"]}
-
-    def tags_in(ts, acc):
-        for t in ts:
-            if t[0] == "comp":
-                acc.add(t[1])
-            if t[0] == "include":
-                f = fp["inc"].get(t[1])
-                if f:
-                    for tt in f["chain"] + [f["root"]]:
-                        tags_in(tt, acc)
-            for i in BODY_IDX.get(t[0], ()):
-                tags_in(t[i], acc)
-        return acc
-
-    def bodies_of(ts, cname, acc):
-        for t in ts:
-            if t[0] == "comp" and t[1] == cname:
-                tags_in(t[4], acc)
-            if t[0] == "include":
-                f = fp["inc"].get(t[1])
-                if f:
-                    for tt in f["chain"] + [f["root"]]:
-                        bodies_of(tt, cname, acc)
-            for i in BODY_IDX.get(t[0], ()):
-                bodies_of(t[i], cname, acc)
-        return acc
-    def has_slot(ts):
-        for t in ts:
-            if t[0] == "slot":
-                return True
-            if t[0] == "include":
-                f = fp["inc"].get(t[1])
-                if f and any(has_slot(tt) for tt in f["chain"] + [f["root"]]):
-                    return True
-            if any(has_slot(t[i]) for i in BODY_IDX.get(t[0], ())):
-                return True
-        return False
-
-    def passes_slot(ts, cname):
-        """some body passed to cname (lexically in ts) contains a slot tag of the template it is written in"""
-        for t in ts:
-            if t[0] == "comp" and t[1] == cname and has_slot(t[4]):
-                return True
-            if any(passes_slot(t[i], cname) for i in BODY_IDX.get(t[0], ())):
-                return True
-        return False
     owners = [("page", fp["page"])] + [(c, f) for c, f, _ in fp["lib"]]
-    all_tpls = [tt for _, f in owners for tt in f["chain"] + [f["root"]]]
-    body_tags = {}
-    for c in lib:
+    allfams = [f for _, f in owners] + list(fp["inc"].values())
+    defs = {}
+    for f in allfams:
+        d = {}
+        for tt in f["chain"] + [f["root"]]:
+            for n, b in fam_blocks_of(tt):
+                d.setdefault(n, []).append(b)
+        defs[id(f)] = d
+
+    def expand(ts, fam, f, seen=None):
+        """apply f to every node reachable from ts: children, all definitions of blocks, included families"""
+        seen = set() if seen is None else seen
+        for t in ts:
+            f(t)
+            if t[0] == "block":
+                for b in defs[id(fam)].get(t[1], ()):
+                    if id(b) not in seen:
+                        seen.add(id(b))
+                        expand(b, fam, f, seen)
+            if t[0] == "include":
+                g = fp["inc"].get(t[1])
+                if g is not None and ("inc", t[1]) not in seen:
+                    seen.add(("inc", t[1]))
+                    for tt in g["chain"] + [g["root"]]:
+                        expand(tt, g, f, seen)
+            for i in BODY_IDX.get(t[0], ()):
+                expand(t[i], fam, f, seen)
+
+    def tags_in(ts, fam):
         acc = set()
-        for tt in all_tpls:
-            bodies_of(tt, c, acc)
-        body_tags[c] = acc
-    # a body passed to c inside the template of E that contains a slot of E renders whatever is passed to E
+        expand(ts, fam, lambda t: acc.add(t[1]) if t[0] == "comp" else None)
+        return acc
+
+    def has_slot(ts, fam):
+        acc = []
+        expand(ts, fam, lambda t: acc.append(1) if t[0] == "slot" else None)
+        return bool(acc)
+    # bodies passed to each component, with the family they are written in
+    bodies = {c: [] for c in lib}
+
+    def collect(fam):
+        def f(t):
+            if t[0] == "comp" and t[1] in bodies:
+                bodies[t[1]].append((t[4], fam))
+        for tt in fam["chain"] + [fam["root"]]:
+            expand(tt, fam, f)
+    for f in allfams:
+        collect(f)
+    body_tags = {c: set().union(*[tags_in(b, fam) for b, fam in bodies[c]]) if bodies[c] else set() for c in lib}
+    # a body passed to c that contains a slot tag of the component E it is written in renders whatever is passed to E
+    owner_of = {id(f): e for e, f in owners}
     changed = True
     while changed:
         changed = False
         for c in lib:
-            for e, f in owners:
-                if e != "page" and e != c and any(passes_slot(tt, c) for tt in f["chain"] + [f["root"]]):
-                    new = body_tags[e] - body_tags[c]
-                    if new:
-                        body_tags[c] |= new
-                        changed = True
+            for b, fam in bodies[c]:
+                e = owner_of.get(id(fam))
+                if e is None:
+                    es = list(lib)          # written in an included template: any component may include it
+                elif e == "page":
+                    continue
+                else:
+                    es = [e]
+                if has_slot(b, fam):
+                    for e in es:
+                        new = body_tags[e] - body_tags[c]
+                        if new:
+                            body_tags[c] |= new
+                            changed = True
     direct = {}
     for c, fam in lib.items():
         acc = set(body_tags[c])
         for tt in fam["chain"] + [fam["root"]]:
-            tags_in(tt, acc)
+            acc |= tags_in(tt, fam)
         direct[c] = acc
     reach = {c: set(v) for c, v in direct.items()}
     changed = True
@@ -1053,11 +1059,24 @@ def _has_block(ts):
 
 
 def slot_layer_class(fp):
-    """Trigger class c10-slot-render-layer (decided on the program text only): a {% block %} tag whose content is rendered
-    through a slot on a render-context layer chosen by POSITION (`render_context.dicts[-2]`, slots.py) -
-      (i)  a block tag written inside the default content of a {% slot %} tag, or
-      (ii) a block tag written inside the body of a component tag whose component has a `deep` slot: a slot tag inside an
-           included template, inside another slot's content, or inside the body of a component tag."""
+    """Trigger class c10-block-in-slot-default (decided on the program text only): a {% block %} tag written inside the
+    default content of a {% slot %} tag.  (slots.py renders the default content of an unfilled slot on
+    `render_context.dicts[-2]`, the layer of the template that wrote the component tag, whenever that layer has a block
+    context; the block then is not resolved against the component's own family.)"""
+    r = _slot_layer_class(fp)
+    return r if r == "block-in-slot-default" else None
+
+
+def deep_slot_fill_class(fp):
+    """Not a trigger class of the current tree (reported only): a block tag written inside the body of a component tag whose
+    component has a `deep` slot - a slot tag inside an included template, inside another slot's content, or inside the
+    body of a component tag.  The layer for fill content is chosen by position (dicts[-2]); today the component's own
+    layer holds a copy of the tag's BlockContext, which hides the wrong choice."""
+    r = _slot_layer_class(fp)
+    return r if r and r != "block-in-slot-default" else None
+
+
+def _slot_layer_class(fp):
     lib = {c: fam for c, fam, _ in fp["lib"]}
     fams = [fp["page"]] + list(lib.values()) + list(fp["inc"].values())
 
@@ -1181,71 +1200,77 @@ def norm(ts):
 
 
 # ---- worker B ----
-def worker_comp(spec):
-    import django
-    from django.conf import settings
-    from pathlib import Path
-    repo = os.environ.get("VERIF_REPO", "/repo")
-    TPL = {}
-    settings.configure(
-        BASE_DIR=Path(repo) / "tests", INSTALLED_APPS=("django_components",),
-        TEMPLATES=[{"BACKEND": "django.template.backends.django.DjangoTemplates", "DIRS": [],
-                    "OPTIONS": {"builtins": ["django_components.templatetags.component_tags"],
-                                "loaders": [("django.template.loaders.locmem.Loader", TPL)]}}],
-        COMPONENTS={"autodiscover": False, "template_cache_size": 128},
-        MIDDLEWARE=["django_components.middleware.ComponentDependencyMiddleware"],
-        DATABASES={}, SECRET_KEY="x", ROOT_URLCONF="django_components.urls")
-    django.setup()
-    import django_components
-    assert os.path.realpath(django_components.__file__).startswith(os.path.realpath(repo)), django_components.__file__
-    import core_run
-    import djsetup
-    from django.template import Context, Template
-    from django.template.loader import get_template
-    djsetup.patch_ids()
-    ID_RE = re.compile(r" data-djc-id-[0-9a-zA-Z]+(=\"\")?")
-    import signal
+class CompRunner:
+    """configures Django + django_components once (locmem loader) and renders family / flattened programs"""
 
-    def outcome_of(fn, limit=12.0):
+    def __init__(self):
+        import django
+        from django.conf import settings
+        from pathlib import Path
+        repo = os.environ.get("VERIF_REPO", "/repo")
+        self.TPL = {}
+        settings.configure(
+            BASE_DIR=Path(repo) / "tests", INSTALLED_APPS=("django_components",),
+            TEMPLATES=[{"BACKEND": "django.template.backends.django.DjangoTemplates", "DIRS": [],
+                        "OPTIONS": {"builtins": ["django_components.templatetags.component_tags"],
+                                    "loaders": [("django.template.loaders.locmem.Loader", self.TPL)]}}],
+            COMPONENTS={"autodiscover": False, "template_cache_size": 128},
+            MIDDLEWARE=["django_components.middleware.ComponentDependencyMiddleware"],
+            DATABASES={}, SECRET_KEY="x", ROOT_URLCONF="django_components.urls")
+        django.setup()
+        import django_components
+        assert os.path.realpath(django_components.__file__).startswith(os.path.realpath(repo)), django_components.__file__
+        import djsetup
+        djsetup.patch_ids()
+        self.ID_RE = re.compile(r" data-djc-id-[0-9a-zA-Z]+(=\"\")?")
+
+    def outcome_of(self, fn, limit=12.0):
         """core_run.outcome_of with a longer, repeating watchdog (an alarm that lands inside a callback whose exceptions
         are ignored must not leave a looping render running)"""
+        import signal
+        import core_run
         old = sys.getrecursionlimit()
         signal.signal(signal.SIGALRM, core_run._alarm)
         signal.setitimer(signal.ITIMER_REAL, limit, 0.5)
         try:
-            return ("ok", core_run.canon(fn()))
+            o = ("ok", core_run.canon(fn()))
         except core_run.RenderTimeout:
-            return ("err", "other:Timeout")
+            o = ("err", "other:Timeout")
         except RecursionError:
-            return ("err", "other:RecursionError")
+            o = ("err", "other:RecursionError")
         except Exception as e:  # noqa
-            return ("err", core_run.ERRMAP.get(type(e).__name__, "other:" + type(e).__name__))
+            o = ("err", core_run.ERRMAP.get(type(e).__name__, "other:" + type(e).__name__))
+            self.last_exc = "%s: %s" % (type(e).__name__, str(e)[:300])
         finally:
             signal.setitimer(signal.ITIMER_REAL, 0)
             sys.setrecursionlimit(old)
+        return (o[0], self.ID_RE.sub("", o[1])) if o[0] == "ok" else o
 
-    def run_flat(prog):
+    def run_flat(self, prog):
+        import core_run
+        import djsetup
+        from django.template import Context, Template
         djsetup.reset_ids()
         with djsetup.components_settings(context_behavior=prog["mode"]):
             classes, cleanup = core_run.build(prog, False)
             try:
                 src = d_nodes(prog["page"])
-                o = outcome_of(lambda: Template(src).render(Context(dict(prog["ctx"]))))
+                return self.outcome_of(lambda: Template(src).render(Context(dict(prog["ctx"]))))
             finally:
                 cleanup()
-        return (o[0], ID_RE.sub("", o[1])) if o[0] == "ok" else o
 
-    def run_family(fp, page_named, leaf_named):
+    def run_family(self, fp, page_named, leaf_named):
+        import core_run
+        import djsetup
+        from django.template import Context, Template
+        from django.template.loader import get_template
+        TPL = self.TPL
         djsetup.reset_ids()
         TPL.clear()
         for name, fam in fp["inc"].items():
             tpls, leafname, src = fam_templates(fam, name[:-5])
             TPL.update(tpls)
-            # the include refers to `name`: alias it to the leaf of its family
-            TPL[name] = TPL[leafname]
-            if fam["chain"]:
-                # `name` must extend the same parent as the leaf: its source already does
-                pass
+            TPL[name] = TPL[leafname]        # the include refers to `name`: the leaf of its family
         page_tpls, page_leaf, page_src = fam_templates(fp["page"], "c10/%s_page" % fp["uid"], leaf_inline=not page_named)
         TPL.update(page_tpls)
         comp_src = {}
@@ -1270,21 +1295,22 @@ def worker_comp(spec):
                     if page_leaf is not None:
                         return get_template(page_leaf).render(dict(fp["ctx"]))
                     return Template(page_src).render(Context(dict(fp["ctx"])))
-                o = outcome_of(go)
+                return self.outcome_of(go)
             finally:
                 cleanup()
-        return (o[0], ID_RE.sub("", o[1])) if o[0] == "ok" else o
 
-    out = []
-    for case in spec["cases"]:
-        fp = case["fp"]
+    def run_case(self, case):
+        fp = dict(case["fp"])
         fp["lib"] = [tuple(x) for x in fp["lib"]]
-        flat = case["flat"]
+        flat = dict(case["flat"])
         flat["lib"] = [tuple(x) for x in flat["lib"]]
-        rec = {"id": case["id"], "flat": run_flat(flat)}
-        rec["family"] = run_family(fp, case.get("page_named", False), case.get("leaf_named", False))
-        out.append(rec)
-    return {"obs": out}
+        return {"id": case["id"], "flat": self.run_flat(flat),
+                "family": self.run_family(fp, case.get("page_named", False), case.get("leaf_named", False))}
+
+
+def worker_comp(spec):
+    r = CompRunner()
+    return {"obs": [r.run_case(case) for case in spec["cases"]]}
 
 
 def main():
